@@ -60,22 +60,38 @@ func compact(b []byte) ([]int, bool) {
 	return nil, false
 }
 
-// snapshotL is snapshot with the fields named in longf in compact form where
-// their value has it
+// snapshotL is snapshot with, in an event of the long generators (longf not
+// empty), every text in compact form where it has one (the same function for
+// the written and the read pack, so equal texts have equal records)
 func snapshotL(p interface{}, longf map[string]bool) map[string]interface{} {
+	if len(longf) == 0 {
+		return snapshot(p)
+	}
 	m := map[string]interface{}{}
 	for _, f := range fieldsOf(p) {
-		if longf[f.name] && (f.kind == "str" || f.kind == "bytes") {
-			var b []byte
-			if f.kind == "str" {
-				b = []byte(f.v.String())
-			} else {
-				b = f.v.Bytes()
-			}
-			if cv, ok := compact(b); ok {
+		switch f.kind {
+		case "str":
+			if cv, ok := compact([]byte(f.v.String())); ok {
 				m[f.name] = cv
 				continue
 			}
+		case "bytes":
+			if cv, ok := compact(f.v.Bytes()); ok {
+				m[f.name] = cv
+				continue
+			}
+		case "strs":
+			o := make([]interface{}, f.v.Len())
+			for i := range o {
+				e := f.v.Index(i).String()
+				if cv, ok := compact([]byte(e)); ok {
+					o[i] = cv
+				} else {
+					o[i] = core.Str(e)
+				}
+			}
+			m[f.name] = o
+			continue
 		}
 		if v, ok := project(f); ok {
 			m[f.name] = v
@@ -710,7 +726,7 @@ func runFail(c *core.Ctx) error {
 					t = c.Trace(name, "Trace_UdpPack")
 					inFile = 0
 				}
-				if err := failHistory(c, t, cas, pt, ver, c.Thorough() && mine); err != nil {
+				if err := failHistory(c, t, cas, pt, ver, c.Thorough()); err != nil {
 					return err
 				}
 				inFile++
